@@ -125,6 +125,20 @@ func (r *Registry) PushManifest(ctx context.Context, repoName string, tag string
 			}
 		}
 	}
+	if r.cfg.ImmutableTags {
+		if curr := repo.manifests[dig]; curr != nil && curr.mediaType != mediaType {
+			// Storing the manifest under another media type would change
+			// what it's considered to refer to, so don't allow that
+			// when a tag depends on it.
+			ok, err := refersTo(repo, repoTagIter(repo), dig)
+			if err != nil {
+				return ociregistry.Descriptor{}, err
+			}
+			if ok {
+				return ociregistry.Descriptor{}, fmt.Errorf("%w: mismatched media type", ociregistry.ErrDenied)
+			}
+		}
+	}
 	// make a copy of the data to avoid potential corruption.
 	data = append([]byte(nil), data...)
 	if err := CheckDescriptor(desc, data); err != nil {
